@@ -637,7 +637,7 @@ package gorm
 //@   match call gorm.(*DB).executeScopes
 //@   in gorm.(*Statement).BuildCondition
 //@   min-sites 1
-//@   assert not-on-a-reusable-handle: arg0.clone <= 0 [C06]
+//@   assert not-on-a-reusable-handle: arg0.clone <= 0 [C06,C09]
 //@ # BuildCondition's overall frame is trusted (reflection), but its element stores are swept: a condition list is
 //@ # only ever written in an array the call allocated (finding F14: the WHERE list of a *DB argument was rewritten
 //@ # in place).
@@ -765,6 +765,8 @@ package gorm
 //@   let select0 = db.Statement.Clauses["SELECT"]
 //@   ensures ordering-restored: hadOrder && !grouped ==> has(result.Statement.Clauses, "ORDER BY") && result.Statement.Clauses["ORDER BY"] == order0
 //@   ensures selection-restored: hadSelect ==> has(result.Statement.Clauses, "SELECT") && result.Statement.Clauses["SELECT"] == select0
+//@   ensures receiver-keeps-its-ordering: hadOrder ==> has(db.Statement.Clauses, "ORDER BY") && db.Statement.Clauses["ORDER BY"] == order0 [C06]
+//@   ensures receiver-keeps-its-selection: hadSelect ==> has(db.Statement.Clauses, "SELECT") && db.Statement.Clauses["SELECT"] == select0 [C06]
 
 //@ # ---------- C19: ToSQL renders the receiver's chain in a dry-run session ----------
 //@ # The handle given to the callback is a DryRun session (no driver call), without the implicit transaction, and it
